@@ -1,3 +1,4 @@
 import Cgm.Lemmas.AuditCmd
 import Cgm.Props.C06
+import Cgm.Props.C06b
 #audit_namespace Cg.C06
